@@ -6,6 +6,7 @@
 set -u
 export GOFLAGS=-mod=mod GOPROXY=off GOSUMDB=off GOTOOLCHAIN=local
 patch="$1"; checks="$2"; tier="${3:-quick}"
+ROOT="$(cd "$(dirname "$0")/.." && pwd)"
 dir=$(mktemp -d /tmp/mutant.XXXXXX)/go-jmespath
 mkdir -p "$dir"
 rsync -a --exclude .git /repo/ "$dir"/
@@ -13,9 +14,9 @@ if [ "$patch" = "-" ]; then patch=/dev/stdin; fi
 if ! (cd "$dir" && patch -p1 -s < "$patch"); then echo "PATCH FAILED"; rm -rf "$(dirname "$dir")"; exit 2; fi
 if (cd "$dir" && go build ./... && go test -vet=off -count=1 ./... >/tmp/mutant-suite.out 2>&1); then echo "suite: PASS"; else echo "suite: FAIL (not a useful mutant)"; tail -5 /tmp/mutant-suite.out; fi
 for c in $checks; do
-  out=$(VERIF_REPO="$dir" /verif/check "$c" "$tier" 2>&1); rc=$?
+  out=$(VERIF_REPO="$dir" "$ROOT/check" "$c" "$tier" 2>&1); rc=$?
   nv=$(echo "$out" | grep -c '^VIOLATION')
   echo "check $c: rc=$rc violations_lines=$nv :: $(echo "$out" | grep -m1 -A3 '^VIOLATION' | tr '\n' ' ' | cut -c1-400)"
 done
 rm -rf "$(dirname "$dir")"
-rm -f /verif/replays/*.json
+rm -f "$ROOT"/replays/*.json
